@@ -431,3 +431,24 @@ def r14d(model: Model, rr: RuleResult):
             rr.ok(f"{fn}: ppem from the single bitmap height of the strike's glyphs (only() asserts one height)")
         else:
             rr.bad(fi, fi.node, f"{fn}: ppem is not derived from the unique bitmap height of the strike", construct=f"{fn}: ppem source")
+
+
+@RULES.rule("C14", "R14e", "the bitmap is centred in its advance using the bitmap's own width", floor=1)
+def r14e(model: Model, rr: RuleResult):
+    c = model.func("bitmap_tables", "BitmapMetrics.create")
+    bm = [x for x in calls_in(c) if norm(x.func) == "BitmapMetrics"]
+    if len(bm) != 1:
+        raise AnalysisError("BitmapMetrics.create: BitmapMetrics(...) not found")
+    xo = kwarg(bm[0], "x_offset")
+    subs = [n for n in ast.walk(xo) if isinstance(n, ast.BinOp) and isinstance(n.op, ast.Sub) and "_width_in_pixels" in norm(n.left)]
+    if len(subs) != 1:
+        raise AnalysisError("BitmapMetrics.create: x_offset is not of the form (advance in pixels - bitmap width) / 2")
+    w = norm(subs[0].right)
+    halves = any(isinstance(n, ast.BinOp) and isinstance(n.op, ast.Div) and norm(n.right) == "2" and n.left is subs[0] for n in ast.walk(xo))
+    if w == f"{c.params[2]}.size[0]" and halves:
+        rr.ok("x_offset = (advance in pixels - the bitmap's width) / 2, clamped at 0")
+    elif w == "config.bitmap_resolution":
+        rr.bad(c, subs[0], "the bitmap is centred as if it were bitmap_resolution pixels wide: a proportional bitmap that is wider than tall (192x128, advance 192 px) "
+               "is shifted right by half the difference (32 px) instead of filling its advance", construct="BitmapMetrics.create: x_offset uses config.bitmap_resolution as the bitmap width")
+    else:
+        rr.bad(c, subs[0], f"x_offset subtracts {w} from the pixel advance, expected the bitmap's own width", construct=f"BitmapMetrics.create: x_offset uses {w}")
